@@ -306,6 +306,9 @@ func c20r7(c *Ctx) {
 			if t == parT {
 				return []string{"the whole merged-in list"}
 			}
+			if t == parT+"["+ownLen+":]" {
+				return []string{"new-tail"} // also through a helper that returns the tail (its result is transparent)
+			}
 			switch x := v.(type) {
 			case *ssa.Const:
 				if x.Value == nil {
